@@ -74,6 +74,12 @@ const R_ALL: &[(&str, Fm)] = &[
     ("@@foo$tag=t1", Fm::Std),
     ("/foo/bar$tag=t1,domain=example.com|tracker.co.uk", Fm::Std),
     ("/foo/bar$tag=t1,domain=~example.com|~tracker.co.uk", Fm::Std),
+    // the same in a category whose list is kept apart from the plain tagged rules: important rules
+    // (and exceptions) with an initiator domain that differ in their tag only
+    ("bar$important,domain=example.com,tag=t1", Fm::Std),
+    ("bar$important,domain=example.com,tag=t2", Fm::Std),
+    ("@@bar$domain=example.com,tag=t1", Fm::Std),
+    ("@@bar$domain=example.com,tag=t2", Fm::Std),
     // --- redirect / redirect-rule
     ("||ads.net^$redirect=a", Fm::Std),
     ("foo$redirect-rule=b", Fm::Std),
